@@ -322,6 +322,11 @@ def directed_cases(tier):
                  {"s": "write", "op": {"op": "w", "idx": 0, "len": 250, "cid": 0}, "expect": "ok"}, {"s": "close"}]
         steps += [{"s": "mismatch", "dir": 0, "param": pm} for pm in sorted(set(MISMATCH))] + [{"s": "read"}]
         out.append({"cfg": cfg, "ndirs": 1, "steps": steps, "env": {"pad": 0, "cwd": None, "keep_reader": False, "repeat": 1}})
+        # ... and the emptied-properties variants as the FIRST attempt of the process on that channel (an earlier refused
+        # attempt leaves the properties file open inside the HDF5 library, which then answers from memory)
+        for pm in ("F+emptied-properties", "n+emptied-properties"):
+            out.append({"cfg": cfg, "ndirs": 1, "steps": steps[:3] + [{"s": "mismatch", "dir": 0, "param": pm}, {"s": "read"}],
+                        "env": {"pad": 0, "cwd": None, "keep_reader": False, "repeat": 1}})
     return out
 
 
